@@ -1,5 +1,5 @@
 """Sidecar contracts: which real function is checked against which specification."""
-from pyvc.verify import Contract, Cut, STR, INT, BOOL, OPT, URLT
+from pyvc.verify import Contract, Cut, STR, INT, BOOL, OPT, URLT, UNION, CONST
 
 from . import spec_parse, spec_url
 
@@ -63,3 +63,21 @@ add(Contract("yarl._url:URL.host_port_subcomponent", [("self", URLT)], spec=spec
              requires=spec_url.netloc_ok, props=("C17", "C16", "C19")))
 add(Contract("yarl._url:URL.__str__", [("self", URLT)], spec=spec_url.str_,
              requires=spec_url.str_requires, props=("C17", "C07", "C03", "C19")))
+
+# ---------------------------------------------------------------- modifiers (C11, C17, C19)
+_OTHER = CONST(1.5, b"x")
+add(Contract("yarl._url:URL.with_port", [("self", URLT), ("port", UNION(OPT(INT), BOOL, CONST("80", 80.0)))],
+             spec=spec_url.with_port, requires=spec_url.netloc_ok, raises=(TypeError, ValueError),
+             props=("C17", "C11", "C19")))
+add(Contract("yarl._url:URL.with_scheme", [("self", URLT), ("scheme", UNION(STR, CONST(None, 1)))],
+             spec=spec_url.with_scheme, raises=(TypeError, ValueError), props=("C11", "C19")))
+add(Contract("yarl._url:URL.with_user", [("self", URLT), ("user", UNION(OPT(STR), CONST(1, b"u")))],
+             spec=spec_url.with_user, requires=spec_url.netloc_ok, raises=(TypeError, ValueError),
+             props=("C11", "C19")))
+add(Contract("yarl._url:URL.with_password", [("self", URLT), ("password", UNION(OPT(STR), CONST(1, b"p")))],
+             spec=spec_url.with_password, requires=spec_url.netloc_ok, raises=(TypeError, ValueError),
+             props=("C11", "C19")))
+add(Contract("yarl._url:URL.relative", [("self", URLT)], spec=spec_url.relative, raises=(ValueError,),
+             props=("C11", "C19")))
+add(Contract("yarl._url:URL._origin", [("self", URLT)], spec=spec_url.origin, requires=spec_url.origin_requires,
+             raises=(ValueError,), props=("C11", "C19")))
